@@ -24,6 +24,7 @@ import Proofs.C17Loop
                                        classes are the union (`classes_union`)           — full, no hypothesis
                `exit_combines`         exit (run fs) = precedence-max of the exits of the single runs
                `run_exit_is_exitCode`
+               `input_processed_or_reported`, `silent_run_processed_all`   no input is ever silently dropped
                `exit_ignores_error_value`   the status depends only on WHICH classes failed, never on the value a
                                        program raised (null, false, 0, "", {} …): the memory holds a rendered string;
                                        `exit_raw_memory_false`: storing the raw value (seeded change S2-C17-1) breaks it
@@ -444,6 +445,46 @@ theorem inputs_independent (env : Env C V Out) (fs : List Str) :
     rw [runFiles_cons env f t]
     obtain ⟨i1, i2, i3, i4, i5⟩ := ih
     simp [app, i1, i2, i3, i4, i5]
+
+/-- input_processed_or_reported: every named input is either REPORTED (a line on stderr and its class remembered,
+    hence a non-zero status) or PROCESSED (it was opened and decoded and the program's outputs for its value are the
+    run's outputs) — never silently dropped -/
+theorem input_processed_or_reported (env : Env C V Out) (f : Str) :
+    ((runFiles env [f]).errs = [.io f] ∧ (runFiles env [f]).io = true) ∨
+    ((runFiles env [f]).errs = [.dec f] ∧ (runFiles env [f]).dec = true) ∨
+    (∃ c v, env.openF f = some c ∧ env.decode c = some v ∧ (runFiles env [f]).out = (env.eval v).1 ∧
+      (runFiles env [f]).expr = (env.eval v).2) := by
+  unfold runFiles
+  simp only [loop]
+  cases ho : env.openF f with
+  | none => left; simp
+  | some c =>
+    cases hd : env.decode c with
+    | none => right; left; simp [hd]
+    | some v => right; right; exact ⟨c, v, rfl, hd, by simp [hd, evalOne], by simp [hd, evalOne]⟩
+
+/-- … so a run with status 0 and nothing on stderr processed every one of its inputs -/
+theorem silent_run_processed_all (env : Env C V Out) (c : Codes) (hc : LoopWf c) (fs : List Str)
+    (h0 : (runFiles env fs).exit c = 0) : ∀ f ∈ fs, ∃ cnt v, env.openF f = some cnt ∧ env.decode cnt = some v := by
+  intro f hf
+  obtain ⟨_, _, h3, h4, _⟩ := inputs_independent env fs
+  obtain ⟨p1, p2, p3, _, _, _⟩ := hc
+  have hio : (runFiles env fs).io = false := by
+    cases h : (runFiles env fs).io with
+    | false => rfl
+    | true => simp [St.exit, finallyExit, h] at h0; omega
+  have hdec : (runFiles env fs).dec = false := by
+    cases h : (runFiles env fs).dec with
+    | false => rfl
+    | true => simp [St.exit, finallyExit, hio, h] at h0; omega
+  rw [h3] at hio
+  rw [h4] at hdec
+  have hio' := (List.any_eq_false.mp hio) f hf
+  have hdec' := (List.any_eq_false.mp hdec) f hf
+  rcases input_processed_or_reported env f with ⟨_, h⟩ | ⟨_, h⟩ | ⟨cnt, v, h1, h2, _⟩
+  · simp [h] at hio'
+  · simp [h] at hdec'
+  · exact ⟨cnt, v, h1, h2⟩
 
 /-- classes (run fs) = ⋃ classes (run fᵢ) -/
 theorem classes_union (env : Env C V Out) (fs : List Str) (k : Cls) :
